@@ -24,10 +24,12 @@ func uCells(s uSchema, tag string, key int64) []driver.Value {
 			case "varchar":
 				if vrt.Bool(tag + "." + n + ".null") {
 					c[k] = nil
-				} else {
+				} else if vrt.Param("symtext", 1) == 1 {
 					str := vrt.String(tag+"."+n, 1)
 					vrt.Assume(str[0]-0x20 < 0x5f) // printable ASCII
 					c[k] = str
+				} else {
+					c[k] = []string{"ab", "test"}[vrt.Choice(tag+"."+n, 2)]
 				}
 			case "nullint":
 				if vrt.Bool(tag + "." + n + ".null") {
@@ -36,10 +38,33 @@ func uCells(s uSchema, tag string, key int64) []driver.Value {
 					c[k] = vrt.Int64(tag + "." + n)
 				}
 			case "decimal":
-				c[k] = []string{"12.50", "0.10", "-3.00"}[vrt.Choice(tag+"."+n, 3)]
+				c[k] = []string{"12.50", "0.10"}[vrt.Choice(tag+"."+n, 2)]
+			case "float":
+				// the value as phase one read it (text or single precision, parsed into a float64)
+				c[k] = []float64{1.1, 0.5}[vrt.Choice(tag+"."+n, 2)]
 			default:
 				c[k] = vrt.Int64(tag + "." + n)
 			}
+		}
+	}
+	return c
+}
+
+// uCellsConcrete: a row nobody touches (fixed cells of each kind).
+func uCellsConcrete(s uSchema, key int64) []driver.Value {
+	c := make([]driver.Value, len(s.cols))
+	for k := range s.cols {
+		switch {
+		case s.isPK(k):
+			c[k] = key + int64(k)
+		case s.kind(k) == "varchar":
+			c[k] = "x"
+		case s.kind(k) == "decimal":
+			c[k] = "7.25"
+		case s.kind(k) == "float":
+			c[k] = float64(0.25)
+		default:
+			c[k] = int64(7)
 		}
 	}
 	return c
@@ -62,10 +87,16 @@ func VerifC09Decimal() {
 
 func c09Foreign(s uSchema, prefix string) {
 	kind := vrt.Choice("kind", 3)
-	xid, branchID := vrt.String("xid", 2), int64(1+vrt.Choice("branch", 2))
+	xid, branchID := "10.0.0.1:8091:77", int64(2)
+	if prefix == "" {
+		xid, branchID = vrt.String("xid", 2), int64(1+vrt.Choice("branch", 2))
+	}
 	before := uCells(s, "before", 10)
 	after := uCells(s, "after", 10)
 	untouched := uCells(s, "other", 50)
+	if prefix != "" {
+		untouched = uCellsConcrete(s, 50)
+	}
 	var log undo.SQLUndoLog
 	switch kind {
 	case 0:
@@ -114,6 +145,13 @@ func c09Foreign(s uSchema, prefix string) {
 	vrt.Reach("c09/" + tag)
 	vrt.Assert(!panicked, "c09/no-panic/"+tag)
 	vrt.Observe("stub.bad", w.d.bad)
+	if prefix != "" {
+		es := ""
+		if err != nil {
+			es = err.Error()
+		}
+		vrt.Observe("rollback.err", es)
+	}
 	vrt.Assert(w.d.bad == "", "c09/stub-understood-every-statement/"+tag)
 	if panicked || w.d.bad != "" {
 		return
